@@ -35,7 +35,7 @@ EXHAUSTIVE = {t: ["all 512 single-bit flips of the proof per triple", "reply len
 
 def generate(ctx, rng):
     quick = ctx.tier == "quick"
-    ntriples = 14 if quick else 2000
+    ntriples = 14 if quick else 6000
     for t in range(ntriples):
         base = {"token": rng.randbytes(64), "key": rng.randbytes(32), "nonce": rng.randbytes(32),
                 "key_form": rng.choice(["bytes", "hex", "HEX"]), "token_form": rng.choice(["bytes", "hex", "HEX"]),
@@ -49,12 +49,13 @@ def generate(ctx, rng):
         yield ("header", t), {**base, "family": "header"}
     # histories on one object: genuine authentication, then (a) the 12 h lifetime passes and the re-authentication is answered
     # with an altered reply, or (b) authenticate is called again on the still-valid session with a wrong key / altered reply
-    for j in range(24 if quick else 6000):
+    for j in range(24 if quick else 18000):
         yield ("session", j), {"token": rng.randbytes(64), "key": rng.randbytes(32), "nonce": None, "other": rng.randbytes(32),
                                "key_form": rng.choice(["bytes", "hex"]), "token_form": rng.choice(["bytes", "hex"]), "prior": False,
                                "tid": 30000 + j, "family": "session",
                                "variant": ["expired-then-altered", "live-wrong-key", "live-altered", "expired-then-wrong-key",
-                                           "live-good-again", "expired-then-error-packet"][j % 6]}
+                                           "live-good-again", "expired-then-error-packet", "live-abandoned-new-credentials",
+                                           "expired-abandoned-new-credentials"][j % 8]}
     # genuine replies that are late: well inside the read timeout, and arriving in the window right after a read
     # timeout fired but before the retry starts (same loop iteration: the 2 s timer runs first, then the delivery)
     for j, delay in enumerate([0.0, 0.3, 1.0, 1.75, 1.999, 2.0 + 1e-7] * (4 if quick else 60)):
@@ -84,15 +85,25 @@ def generate(ctx, rng):
         for form in ("bytes", "hex"):
             yield ("genuine-texty", j, form), {"token": tok, "key": key, "nonce": rng.randbytes(32), "key_form": form, "token_form": form,
                                                "prior": False, "tid": 43000 + 2 * j + (form == "hex"), "family": "genuine"}
+    # genuine replies whose proof (AES ciphertext + SHA-256) happens to contain the packet start marker 83 70, or the V2 marker 5A 5A
+    # (nonces searched for; about one nonce in a thousand)
+    for j, marker in enumerate([b"\x83\x70", b"\x5a\x5a"] * (6 if quick else 600)):
+        key = rng.randbytes(32)
+        for _ in range(200000):
+            nonce = rng.randbytes(32)
+            if v3.handshake_proof(key, nonce).find(marker) >= 0:
+                break
+        yield ("genuine-inner-marker", j), {"token": rng.randbytes(64), "key": key, "nonce": nonce, "key_form": "bytes", "token_form": rng.choice(["bytes", "hex"]),
+                                            "prior": j % 4 == 0, "tid": 44000 + j, "family": "genuine", **({"splits": [rng.randrange(1, 72)]} if j % 3 == 2 else {})}
     # a genuine reply that reaches the client in two or three TCP segments (every split point of the 72-byte packet)
     for split in range(1, 72):
         yield ("genuine-split", split), {"token": rng.randbytes(64), "key": rng.randbytes(32), "nonce": rng.randbytes(32), "splits": [split],
                                          "key_form": "bytes", "token_form": "bytes", "prior": False, "tid": 40000 + split, "family": "genuine"}
-    for j in range(20 if quick else 7500):
+    for j in range(20 if quick else 22500):
         yield ("genuine-split3", j), {"token": rng.randbytes(64), "key": rng.randbytes(32), "nonce": rng.randbytes(32),
                                       "splits": sorted(rng.sample(range(1, 72), 2)), "key_form": "hex", "token_form": "bytes", "prior": False,
                                       "tid": 41000 + j, "family": "genuine"}
-    for j in range(60 if quick else 15000):
+    for j in range(60 if quick else 45000):
         yield ("genuine-extra", j), {"token": rng.randbytes(64), "key": rng.randbytes(32), "nonce": rng.randbytes(32),
                                      "key_form": rng.choice(["bytes", "hex", "HEX"]), "token_form": rng.choice(["bytes", "hex", "HEX"]),
                                      "prior": False, "tid": 10000 + j, "family": "genuine",
@@ -180,6 +191,7 @@ def run_case(ctx, case):
     dev = SimDevice(net, version=3, token=token, key=key, device_id=0xD00D)
     dev.nonce_source = lambda: nonce
     mode = {"alter": None}
+    mid = {}
 
     def on_handshake(conn, ok, reply, info):
         if mode["alter"] is None or not ok:
@@ -345,6 +357,7 @@ def _session(ctx, case, token, key, tok_arg, key_arg):
     net = H.new_net()
     dev = SimDevice(net, version=3, token=token, key=key, device_id=0xD00D, seed=case["tid"])
     mode = {"alter": None}
+    mid = {}
 
     def on_handshake(conn, ok, reply, info):
         if mode["alter"] is None or not ok:
@@ -374,6 +387,17 @@ def _session(ctx, case, token, key, tok_arg, key_arg):
                 await ac.authenticate(tok_arg, key_arg)
             elif variant in ("live-wrong-key", "expired-then-wrong-key"):
                 await ac.authenticate(tok_arg, other.hex() if case["key_form"] == "hex" else other)
+            elif variant.endswith("abandoned-new-credentials"):
+                # new credentials are offered, the unit never answers that handshake, and the caller gives up after half a second:
+                # the offered pair was never proven - during the attempt and afterwards the stored pair is the proven one
+                dev.silent_on_bad_token = True
+                t2, k2 = bytes(reversed(token)), other
+                task = asyncio.ensure_future(ac.authenticate(t2.hex() if case["token_form"] == "hex" else t2, k2.hex() if case["key_form"] == "hex" else k2))
+                await asyncio.sleep(0.3)
+                mid["creds"] = (ac.token, ac.key)
+                await asyncio.sleep(0.2)
+                task.cancel()
+                await task
             elif variant == "expired-then-error-packet":
                 mode["alter"] = lambda reply, info: v3.build_error(info["counter"])
                 await ac.authenticate(tok_arg, key_arg)
@@ -411,6 +435,14 @@ def _session(ctx, case, token, key, tok_arg, key_arg):
             ctx.violation("genuine-rejected", f"genuine re-authentication on a live session failed: {exc!r}, online={online}", case)
         return
     ctx.count(k, kind=f"session-{variant}", sample={"variant": variant, "exception": type(exc).__name__ if exc else None})
+    if variant.endswith("abandoned-new-credentials"):
+        if "creds" in mid and mid["creds"] != before:
+            ctx.violation("stored-credentials-replaced", f"token/key already replaced while the (never answered) handshake was pending ({variant})", case)
+        if after != before:
+            ctx.violation("stored-credentials-replaced", f"token/key changed although the authentication was abandoned unanswered ({variant})", case)
+        if ferr is not None or not online:
+            ctx.violation("no-recovery-after-abandoned-authentication", f"refresh with the proven credentials afterwards: {ferr!r}, online={online} ({variant})", case)
+        return
     if exc is None:
         ctx.violation("altered-reply-accepted", f"second authentication succeeded although the reply does not prove the offered key ({variant})", case)
         return
